@@ -639,12 +639,20 @@ func runCore(seed int64, nHist, nOps int, out *bufio.Writer, thorough bool) *cor
 				j := r.Intn(n)
 				w.doJoin(i, j, -1)
 				stats.OpHist["join"]++
-			case c < 76 && bounded:
+			case c < 80 && bounded:
 				j := r.Intn(n)
 				tot := w.reps[i].log.Len() + w.reps[j].log.Len()
 				w.doJoin(i, j, r.Intn(tot+4))
 				stats.OpHist["joinN"]++
-			case c < 84:
+				// a burst of further bounded joins into the same (now trimmed) replica, from arbitrary —
+				// often stale — replicas, with bounds around its current size
+				for b := r.Intn(4); b > 0; b-- {
+					w.observe(i)
+					k2 := r.Intn(n)
+					w.doJoin(i, k2, r.Intn(w.reps[i].log.Len()+4))
+					stats.OpHist["joinN"]++
+				}
+			case c < 86:
 				w.doIter(i)
 				stats.OpHist["iter"]++
 			case c < 90 && len(w.reps) < 9:
@@ -679,6 +687,28 @@ func runCore(seed int64, nHist, nOps int, out *bufio.Writer, thorough bool) *cor
 			}
 			w.observe(i)
 			stats.Ops++
+		}
+		// every replica is rebuilt once from what it publishes (a random loader, no limit) and the
+		// rebuilt log is compared with it; the rebuilt replica is then forgotten
+		for i := 0; i < len(w.reps); i++ {
+			if w.reps[i].tampered || w.reps[i].log.Len() == 0 || len(w.reps) >= 16 {
+				continue
+			}
+			before := len(w.reps)
+			kinds := []string{"mh", "json", "ent"}
+			if w.reps[i].log.Heads().Len() == 1 {
+				kinds = append(kinds, "eh")
+			}
+			wr := fmt.Sprintf("ld%d", i)
+			if shared {
+				wr = w.reps[i].writer
+			}
+			w.doLoad(i, kinds[r.Intn(len(kinds))], -1, wr, []int{0, 1, 2, 4, 32}[r.Intn(5)])
+			if len(w.reps) > before {
+				fmt.Fprintf(out, "Z %d\n", len(w.reps)-1)
+				w.reps = w.reps[:before]
+			}
+			stats.OpHist["load:final"]++
 		}
 		// complete exchange in a PRNG order, until nothing changes
 		fmt.Fprintf(out, "X begin\n")
